@@ -46,8 +46,11 @@ GraphMenu == { D("TYPE", <<"@t1", "any">>, FALSE), D("Body", <<"any">>, FALSE), 
 \* own path inside the included file (the new-root rule must not leave the includer's explicit context)
 CtxRootMenu == { D("MACRO", <<"@m1">>, TRUE), D("URL", <<"pa">>, TRUE), D("URL", <<"pa">>, FALSE), CloseTok, Inc1("a.jst"), D("GET", <<"pb">>, FALSE) }
 CtxOtherMenu == { D("URL", <<"pa">>, FALSE), D("URL", <<"pai">>, TRUE), D("GET", <<"pb">>, FALSE), D("GET", <<>>, FALSE), D("RESP", <<"any">>, FALSE), CloseTok }
-Menu == IF Variant = "graphs" THEN GraphMenu ELSE CtxRootMenu
-OtherMenu == IF Variant = "graphs" THEN GraphMenu ELSE CtxOtherMenu
+\* aggregators: files that consist of INCLUDE directives only -- two chains of the same depth (root > a > c, root > b > c)
+\* with no directive at another depth between them; four files, small menus
+AggrMenu == { Inc1("a.jst"), Inc1("b.jst"), Inc1("c.jst"), D("TYPE", <<"@t1", "any">>, FALSE) }
+Menu == IF Variant = "graphs" THEN GraphMenu ELSE IF Variant = "aggr" THEN AggrMenu ELSE CtxRootMenu
+OtherMenu == IF Variant = "graphs" THEN GraphMenu ELSE IF Variant = "aggr" THEN AggrMenu ELSE CtxOtherMenu
 RareMenu == IF Variant # "graphs" THEN {} ELSE
             { Inc1("sub"), Inc1(".."), Inc1("/a.jst"), Inc1("x\\y.jst"), Inc1(""),
               [Inc1("a.jst") EXCEPT !.p = <<"a.jst", "extra">>], [Inc1("a.jst") EXCEPT !.a = "note"],
